@@ -1019,6 +1019,27 @@ theorem density_matrix_operation_refines_tableau_api (ne np : Nat) (a : SOp) (d 
     (Commute.apiPs (d.prims (d.out sc)) t).n = ne + np :=
   Commute.appD_api ne np a d hd t hn hv hr sc hhas hok c
 
+/-- **the density-matrix semantics refines the stabilizer semantics of §2b, operation by operation** (gates, measurements,
+    classically controlled corrections, measure-and-reset): on a valid tableau `t` with real stabilizer rows, with `t'` the
+    tableau after the operation's API calls and `w` the Born weight of the recorded outcome,
+    * `Commute.appRaw` on the group of `t` is undefined ("this outcome cannot occur") **iff** `w = 0`, and otherwise returns the
+      group of `t'` with the outcome stream popped;
+    * `Commute.appD` on `c · ρ(t)` returns `(c · w) · ρ(t')` with the same stream;
+    * `t'` is again valid with real stabilizer rows, so the statement chains along any compile sequence: the matrix the
+      density-matrix semantics carries is (probability of the recorded outcomes) × (density matrix of the stabilizer state the
+      stabilizer semantics carries). -/
+theorem density_matrix_semantics_refines_stabilizer_semantics (ne np : Nat) (a : SOp) (d : Commute.Dec)
+    (hd : Commute.decode ne np a = some d) (t : Tab) (ht : Commute.TInv (ne + np) t) (sc : Commute.Script) (hhas : d.has sc)
+    (hok : ∀ p ∈ d.prims (d.out sc), Commute.primOk (ne + np) p = true) (c : ℂ) :
+    Commute.appRaw ne np a (some (TabSpec.gstate t, sc)) =
+      (if Commute.weightPs (d.prims (d.out sc)) t = 0 then none
+       else some (TabSpec.gstate (Commute.apiPs (d.prims (d.out sc)) t), d.pop sc)) ∧
+    Commute.appD ne np a (some (c • Hilbert.tabRho (ne + np) t, sc)) =
+      some ((c * Commute.weightPs (d.prims (d.out sc)) t) • Hilbert.tabRho (ne + np) (Commute.apiPs (d.prims (d.out sc)) t),
+        d.pop sc) ∧
+    Commute.TInv (ne + np) (Commute.apiPs (d.prims (d.out sc)) t) :=
+  Commute.appD_refines_appRaw ne np a d hd t ht sc hhas hok c
+
 /-- its hypotheses are met: `ClassicalCNOT(p0 → p1)` on two photons with recorded outcome 1 decodes to
     `[measure p0 ↦ 1, X p1]`, both within range, and an outcome is supplied -/
 example : ∃ d, Commute.decode 0 2 ⟨.node .ccnot [⟨.p, 0⟩, ⟨.p, 1⟩] [0], [⟨.p, 0⟩, ⟨.p, 1⟩]⟩ = some d ∧
@@ -1031,6 +1052,9 @@ example : ∃ d, Commute.decode 0 2 ⟨.node .ccnot [⟨.p, 0⟩, ⟨.p, 1⟩] [
     have : p ∈ [Tab.Op.meas 0 true, Tab.Op.x 1] := hp
     simp only [List.mem_cons, List.not_mem_nil, or_false] at this
     rcases this with rfl | rfl <;> rfl
+
+/-- … and `|00⟩` satisfies the tableau invariant `Commute.TInv` -/
+example : Commute.TInv (0 + 2) (Tab.ket0 2) := ⟨(Tab.isSymplectic_iff _).mp (by decide), Hilbert.ket0_stabReal 2, rfl⟩
 
 /-- the hypotheses of `density_matrix_measurement_is_born_weighted_tableau_measurement` are met by `|00⟩` -/
 example : 0 < (Tab.ket0 2).n ∧ (Tab.ket0 2).Valid ∧ (Tab.ket0 2).StabReal :=
